@@ -514,3 +514,18 @@ VARIANTS += [
  dict(name='signing-time-guard-extra-conjunct', file=E, expect=TP_ST, find=ST_OLD,
       replace='\tif signerInfo == nil && time.Now().IsZero() {\n' + ST_RET + ST_USE),
 ]
+
+# ---- a local pointer that is nil on one way in (checker/nilphi.go; seed C12-7) ----
+CRLF = 'verifier/crl/crl.go'
+_NP = 'flagged(nilable/local-maybe-nil)'
+_GET_OLD = '\tvar bundle corecrl.Bundle\n\tbundle.BaseCRL, err = x509.ParseRevocationList(content.BaseCRL)\n\tif err != nil {\n\t\treturn nil, fmt.Errorf("failed to parse base CRL of file retrieved from file cache: %w", err)\n\t}\n\tif content.DeltaCRL != nil {\n\t\tbundle.DeltaCRL, err = x509.ParseRevocationList(content.DeltaCRL)\n\t\tif err != nil {\n\t\t\treturn nil, fmt.Errorf("failed to parse delta CRL of file retrieved from file cache: %w", err)\n\t\t}\n\t}\n\n\t// check expiry\n\tif err := checkExpiry(ctx, bundle.BaseCRL.NextUpdate); err != nil {\n\t\treturn nil, fmt.Errorf("check BaseCRL expiry failed: %w", err)\n\t}\n\tif bundle.DeltaCRL != nil {\n\t\tif err := checkExpiry(ctx, bundle.DeltaCRL.NextUpdate); err != nil {\n\t\t\treturn nil, fmt.Errorf("check DeltaCRL expiry failed: %w", err)\n\t\t}\n\t}\n\n\treturn &bundle, nil\n'
+_APPEND_AUTH = '\toutcome.VerificationResults = append(outcome.VerificationResults, authenticityResult)\n\tlogVerificationResult(logger, authenticityResult)\n'
+VARIANTS += [
+ dict(name='nilphi-delta-guards-disagree', file=CRLF, expect=_NP, find=_GET_OLD, replace='\tbaseCRL, err := x509.ParseRevocationList(content.BaseCRL)\n\tif err != nil {\n\t\treturn nil, fmt.Errorf("failed to parse base CRL of file retrieved from file cache: %w", err)\n\t}\n\tvar deltaCRL *x509.RevocationList\n\tif len(content.DeltaCRL) > 0 {\n\t\tdeltaCRL, err = x509.ParseRevocationList(content.DeltaCRL)\n\t\tif err != nil {\n\t\t\treturn nil, fmt.Errorf("failed to parse delta CRL of file retrieved from file cache: %w", err)\n\t\t}\n\t}\n\n\t// check expiry\n\tif err := checkExpiry(ctx, baseCRL.NextUpdate); err != nil {\n\t\treturn nil, fmt.Errorf("check BaseCRL expiry failed: %w", err)\n\t}\n\tif content.DeltaCRL != nil {\n\t\tif err := checkExpiry(ctx, deltaCRL.NextUpdate); err != nil {\n\t\t\treturn nil, fmt.Errorf("check DeltaCRL expiry failed: %w", err)\n\t\t}\n\t}\n\n\treturn &corecrl.Bundle{BaseCRL: baseCRL, DeltaCRL: deltaCRL}, nil\n', why='seed C12-7: parsed behind len > 0, dereferenced behind != nil'),
+ dict(name='nilphi-delta-deref-unguarded', file=CRLF, expect=_NP, find=_GET_OLD, replace='\tbaseCRL, err := x509.ParseRevocationList(content.BaseCRL)\n\tif err != nil {\n\t\treturn nil, fmt.Errorf("failed to parse base CRL of file retrieved from file cache: %w", err)\n\t}\n\tvar deltaCRL *x509.RevocationList\n\tif content.DeltaCRL != nil {\n\t\tdeltaCRL, err = x509.ParseRevocationList(content.DeltaCRL)\n\t\tif err != nil {\n\t\t\treturn nil, fmt.Errorf("failed to parse delta CRL of file retrieved from file cache: %w", err)\n\t\t}\n\t}\n\n\t// check expiry\n\tif err := checkExpiry(ctx, baseCRL.NextUpdate); err != nil {\n\t\treturn nil, fmt.Errorf("check BaseCRL expiry failed: %w", err)\n\t}\n\tif baseCRL != nil {\n\t\tif err := checkExpiry(ctx, deltaCRL.NextUpdate); err != nil {\n\t\t\treturn nil, fmt.Errorf("check DeltaCRL expiry failed: %w", err)\n\t\t}\n\t}\n\n\treturn &corecrl.Bundle{BaseCRL: baseCRL, DeltaCRL: deltaCRL}, nil\n', why='dereferenced whenever the base CRL is fine'),
+ dict(name='benign-nilphi-delta-guards-same-test', file=CRLF, expect='silent', find=_GET_OLD, replace='\tbaseCRL, err := x509.ParseRevocationList(content.BaseCRL)\n\tif err != nil {\n\t\treturn nil, fmt.Errorf("failed to parse base CRL of file retrieved from file cache: %w", err)\n\t}\n\tvar deltaCRL *x509.RevocationList\n\tif content.DeltaCRL != nil {\n\t\tdeltaCRL, err = x509.ParseRevocationList(content.DeltaCRL)\n\t\tif err != nil {\n\t\t\treturn nil, fmt.Errorf("failed to parse delta CRL of file retrieved from file cache: %w", err)\n\t\t}\n\t}\n\n\t// check expiry\n\tif err := checkExpiry(ctx, baseCRL.NextUpdate); err != nil {\n\t\treturn nil, fmt.Errorf("check BaseCRL expiry failed: %w", err)\n\t}\n\tif content.DeltaCRL != nil {\n\t\tif err := checkExpiry(ctx, deltaCRL.NextUpdate); err != nil {\n\t\t\treturn nil, fmt.Errorf("check DeltaCRL expiry failed: %w", err)\n\t\t}\n\t}\n\n\treturn &corecrl.Bundle{BaseCRL: baseCRL, DeltaCRL: deltaCRL}, nil\n', why='both guards test the same quantity'),
+ dict(name='benign-nilphi-delta-guard-on-the-local', file=CRLF, expect='silent', find=_GET_OLD, replace='\tbaseCRL, err := x509.ParseRevocationList(content.BaseCRL)\n\tif err != nil {\n\t\treturn nil, fmt.Errorf("failed to parse base CRL of file retrieved from file cache: %w", err)\n\t}\n\tvar deltaCRL *x509.RevocationList\n\tif len(content.DeltaCRL) > 0 {\n\t\tdeltaCRL, err = x509.ParseRevocationList(content.DeltaCRL)\n\t\tif err != nil {\n\t\t\treturn nil, fmt.Errorf("failed to parse delta CRL of file retrieved from file cache: %w", err)\n\t\t}\n\t}\n\n\t// check expiry\n\tif err := checkExpiry(ctx, baseCRL.NextUpdate); err != nil {\n\t\treturn nil, fmt.Errorf("check BaseCRL expiry failed: %w", err)\n\t}\n\tif deltaCRL != nil {\n\t\tif err := checkExpiry(ctx, deltaCRL.NextUpdate); err != nil {\n\t\t\treturn nil, fmt.Errorf("check DeltaCRL expiry failed: %w", err)\n\t\t}\n\t}\n\n\treturn &corecrl.Bundle{BaseCRL: baseCRL, DeltaCRL: deltaCRL}, nil\n', why='the dereference is guarded by the nil test of the local itself'),
+ dict(name='nilphi-authenticity-result-recorded-only-on-failure', file=V, expect=_NP, find=_APPEND_AUTH,
+      replace='\tif authenticityResult.Error != nil {\n\t\toutcome.VerificationResults = append(outcome.VerificationResults, authenticityResult)\n\t}\n\tlogVerificationResult(logger, authenticityResult)\n',
+      why='the search in processPluginResponse can now find nothing: nil dereference on a failed plugin verdict'),
+]
